@@ -199,6 +199,9 @@ func (its *jsonPrimitive) isTomb() bool {
 }
 
 func (its *jsonPrimitive) isGarbage() bool {
+	if its.common != nil && its.common.root != nil && its.common.root.getCommon() != its.common {
+		return true // a node of a tree that has been rebuilt without it
+	}
 	var p jsonType = its
 	for p != nil {
 		if p.isTomb() {
